@@ -5,6 +5,7 @@ import (
 	"crypto/sha256"
 	"encoding/hex"
 	"fmt"
+	"math/big"
 	"strings"
 
 	"github.com/libsv/go-bk/bec"
@@ -222,6 +223,32 @@ func init() {
 			emit(strings.ToLower(t), "case-changed")
 		}
 
+		c.Phase("overflow-wrap") // strings that decode to MORE than 25 bytes but whose low 25 bytes are a valid payload (a decoder that drops the carry accepts them)
+		nw := uint64(60)
+		if c.Thorough {
+			nw = 1500
+		}
+		for i := uint64(0); i < nw; i++ {
+			if !c.Case(i) {
+				continue
+			}
+			r := c.Rand(i)
+			ver := byte(0x00)
+			if r.Bool() {
+				ver = 0x6f
+			}
+			origin := refaddr.CheckEncode(ver, r.Bytes(20))
+			raw, _ := refaddr.B58Decode(origin)
+			v := new(big.Int).SetBytes(raw)
+			for _, k := range []int64{1, 2, 3, 57, 58, 59, 116, 255, 256, 3364, 65536} {
+				w := new(big.Int).Add(v, new(big.Int).Lsh(big.NewInt(k), 200))
+				enc := refaddr.B58Encode(w.Bytes())
+				for ones := 0; ones <= 2; ones++ {
+					str(c, &c15Str{S: enc, Origin: origin, Class: "overflow-wrap"})
+					enc = "1" + enc
+				}
+			}
+		}
 		c.Phase("free-form")
 		free := []string{"", "1", "11111111111111111111111111111111", "1111111111111111111114oLvT2", "m", "bitcoin-script", "1A1zP1eP5QGefi2DMPTfTL5SLmv7DivfN", "1A1zP1eP5QGefi2DMPTfTL5SLmv7DivfNaa",
 			strings.Repeat("z", 34), strings.Repeat("z", 35), strings.Repeat("1", 100), strings.Repeat("2", 500)}
